@@ -149,9 +149,9 @@ theorem opt_same_line (l : List Instr) (p : Nat) (h : ∀ j ∈ l, j.pos = p) : 
 
 /-! ### the position word -/
 
-theorem newPos_arith (fi gi line col : Nat) (hg : gi < 65536) :
-    newPos fi gi line col = fi * 2^48 + gi * 2^32 + (min line 65535) * 2^16 + min col 65535 := by
-  unfold newPos
+theorem packPos_arith (fi gi line col : Nat) (hg : gi < 65536) :
+    packPos fi gi line col = fi * 2^48 + gi * 2^32 + (min line 65535) * 2^16 + min col 65535 := by
+  unfold packPos
   have hc : min col 65535 < 2 ^ 16 := by omega
   have h1 : (min line 0xffff) <<< 16 ||| min col 0xffff = (min line 65535) * 2^16 + min col 65535 := by
     rw [← Nat.shiftLeft_add_eq_or_of_lt hc, Nat.shiftLeft_eq]
@@ -162,13 +162,9 @@ theorem newPos_arith (fi gi line col : Nat) (hg : gi < 65536) :
   rw [Nat.or_assoc, Nat.or_assoc, h1, h2, h3]
   omega
 
-/-- **pos_fields.** For EVERY line and column (also beyond 65535, where they saturate) the error
-    handler reads back exactly the file and function indices that were packed: a long file or a long
-    line cannot make it look up a name that does not exist (which, inside the deferred recover,
-    would be a panic escaping to the host), and below 65536 line and column are exact. -/
-theorem pos_fields (fi gi line col : Nat) (hf : fi < 65536) (hg : gi < 65536) :
-    posInfo (newPos fi gi line col) = (fi, gi, min line 65535, min col 65535) := by
-  rw [newPos_arith fi gi line col hg]
+theorem packPos_fields (fi gi line col : Nat) (hf : fi < 65536) (hg : gi < 65536) :
+    posInfo (packPos fi gi line col) = (fi, gi, min line 65535, min col 65535) := by
+  rw [packPos_arith fi gi line col hg]
   simp only [posInfo, Nat.shiftRight_eq_div_pow]
   have m : ∀ x : Nat, x &&& 0xffff = x % 65536 := fun x => by
     have := Nat.and_two_pow_sub_one_eq_mod x 16
@@ -176,6 +172,24 @@ theorem pos_fields (fi gi line col : Nat) (hf : fi < 65536) (hg : gi < 65536) :
   simp only [m]
   refine Prod.ext ?_ (Prod.ext ?_ (Prod.ext ?_ ?_)) <;> simp <;> omega
 
+theorem satIdx_lt (i : Nat) : satIdx i < 65536 := by unfold satIdx; split <;> omega
+
+/-- **pos_fields.** For EVERY file-name index, function-name index, line and column - also beyond
+    65535 - the error handler reads back name indices that were really packed: an index inside the
+    name table comes back unchanged, one past its end comes back as 0 (the entry that names nothing),
+    and line and column come back exact below 65536 and saturated above. No field spills into a
+    neighbour, so a long file, a long line or a program with very many names cannot make the handler
+    name another function or file, nor look up a name that does not exist (which, inside the
+    deferred recover, would be a panic escaping to the host). -/
+theorem pos_fields (fi gi line col : Nat) :
+    posInfo (newPos fi gi line col) = (satIdx fi, satIdx gi, min line 65535, min col 65535) :=
+  packPos_fields _ _ line col (satIdx_lt fi) (satIdx_lt gi)
+
+theorem pos_fields_small (fi gi line col : Nat) (hf : fi < 65536) (hg : gi < 65536) :
+    posInfo (newPos fi gi line col) = (fi, gi, min line 65535, min col 65535) := by
+  rw [pos_fields]; unfold satIdx; simp only [show ¬ fi > 0xffff by omega, show ¬ gi > 0xffff by omega, if_false]
+
+example : posInfo (newPos 70000 7 3 12) = (0, 7, 3, 12) := by decide
 example : posInfo (newPos 3 7 70000 12) = (3, 7, 65535, 12) := by decide
 
 /-! ### non-vacuity: main → f (line 10) → g (line 20) → fault at 31, after a completed call to h -/
